@@ -519,6 +519,13 @@ def suite_c19(seed, thorough):
             for l in leaves:
                 ws.write(l, rng.choice(["X", "Y", "Z"]).encode())
             ws.write("secret.txt", b"must never be served")
+            # a directory sitting where a target will be built: ruler moves it into the cache under its hash,
+            # so the cache holds a directory entry, which must get a clean 404 like anything that is not a file
+            if rng.random() < 0.6:
+                dname = rng.choice(targets)
+                os.makedirs(ws.path(dname))
+                with open(ws.path(dname + "/inside.txt"), "wb") as f:
+                    f.write(b"inside a directory")
             # a short build / clean history
             for _ in range(rng.randint(2, 6)):
                 roll = rng.random()
@@ -553,6 +560,13 @@ def suite_c19(seed, thorough):
             for name in cache:
                 reqs.append("/files/" + name)
                 reqs.append("/files/" + name + "/")
+            cdir = ws.path(".ruler/cache")
+            dir_entries = [n for n in sorted(os.listdir(cdir)) if os.path.isdir(os.path.join(cdir, n))] if os.path.isdir(cdir) else []
+            for name in dir_entries:
+                res.count("cache-entry-is-a-directory")
+                reqs.append("/files/" + name)
+                reqs.append("/files/" + name + "/inside.txt")
+                reqs.append("/files/" + name + "%2Finside.txt")
             for hname, raw in hist.items():
                 parsed = parse_history(raw)
                 for key in (parsed or {}):
